@@ -9,6 +9,8 @@ LEVEL = "model_checking"
 def classify(rec, verdict):
     if rec["fn"] == "xser":
         return {"verdict": verdict, "src": "%s %s" % (rec["be"], rec["kind"]), "dst": "binary serde"}
+    if rec["fn"] == "xsuffix":
+        return {"verdict": verdict, "src": "%s %s suffix '%s'" % (rec["be"], rec["purpose"], rec["src_suffix"]), "dst": "suffix '%s'" % rec["dst_suffix"]}
     return {"verdict": verdict, "src": "%s %s" % (rec.get("src_ver", ""), rec["src_kind"]), "dst": "%s %s" % (rec["dst_be"], rec["dst_kind"]), "via": rec["fn"]}
 
 
@@ -45,7 +47,8 @@ def run(out, tier, seed):
     with open(f) as fh:
         for n, l in enumerate(fh):
             rec = json.loads(l)
-            if rec["fn"] == "xser":
+            if rec["fn"] in ("xser", "xsuffix"):
+                nt += rec["fn"] == "xsuffix" and rec["src_suffix"] != rec["dst_suffix"]
                 continue
             if rec.get("src_ver") != rec["dst_ver"] or rec["src_kind"] != rec["dst_kind"]:
                 nt += 1
